@@ -95,7 +95,7 @@ impl<W: Write + Send> SequentialWriter<W> {
         final(self).finish_chan() == old(self).finish_chan(),
         final(self).sink() == old(self).sink(),
         res is Ok ==> res->Ok_0 <= buf@.len(),
-//@before 1 self . writer . lock
+//@before? 1 self . writer . lock
         // the shared sink is touched only once the predecessor is known to have finished
         proof { assert(old(self).pred_chan() is Some ==> finished(old(self).pred_chan()->Some_0)); }
 //@endfn
@@ -106,7 +106,7 @@ impl<W: Write + Send> SequentialWriter<W> {
         old(self).pred_chan() is Some ==> finished(old(self).pred_chan()->Some_0),
         final(self).finish_chan() == old(self).finish_chan(),
         final(self).sink() == old(self).sink(),
-//@before 1 self . writer . lock
+//@before? 1 self . writer . lock
         proof { assert(old(self).pred_chan() is Some ==> finished(old(self).pred_chan()->Some_0)); }
 //@endfn
 //@endimpl
@@ -119,7 +119,7 @@ impl<W: Write + Send> SequentialWriter<W> {
         signalled(old(self).finish_chan()),
         // ... O-DROP-WAITS (premise P2 of L-ORDER): but only after this writer's own predecessor has finished
         old(self).pred_chan() is Some ==> finished(old(self).pred_chan()->Some_0),
-//@before 1 self . on_finish . send
+//@before? 1 self . on_finish . send
         proof { assert(old(self).pred_chan() is Some ==> finished(old(self).pred_chan()->Some_0)); }
 //@endfn
 //@endimpl
